@@ -12,9 +12,9 @@ import (
 
 func sorterN() int {
 	if vpTier() > 0 {
-		return 4
+		return 5
 	}
-	return 3
+	return 4
 }
 
 func sorterCheck(mk func() val.Value, eq func(a, b val.Value) bool) {
